@@ -6,6 +6,8 @@ import (
 	"fmt"
 	"io"
 	"math/rand"
+	"os"
+	"path/filepath"
 	"strings"
 	"sync"
 	"time"
@@ -239,6 +241,15 @@ func lazyTie(r *Result, dp *DriverPool, rng *rand.Rand, nbase int) {
 	for _, b := range corpusStreams(30000) {
 		if b.Kind == "lzma" && rng.Intn(2) == 0 {
 			mk("liblzma/"+b.Name, b.Stream, len(b.Content))
+		}
+	}
+	// corpus of past failures of the tie: a crafted stream on which the range decoder reaches `code = range - 1` with an
+	// odd range right before a direct bit; afterwards `code >= range` and the uint32 arithmetic of the real decoder matters
+	// (the Nat-level decoder model of rounds 1-8 delivered 130 KB here where the real reader reports a distance error)
+	if raw, err := os.ReadFile(filepath.Join(verifRoot(), "corpus", "rc-code-ge-range.lzma.hex")); err == nil {
+		st := unhx(strings.TrimSpace(string(raw)))
+		for _, sizes := range [][]int{{100000, 100000, 100000}, {4096, 4096, 4096, 100000, 100000}, {1, 273, 100000, 100000}} {
+			cases = append(cases, lazyCase{Op: "lazy-read", Name: "corpus/rc-code-ge-range", Stream: hxe(st), DictCap: 4096, Sizes: sizes})
 		}
 	}
 	var wg sync.WaitGroup
